@@ -4,6 +4,7 @@
    order; distinct (canonical) cubes print distinct text.
    u32 masks are [N] below 2^32.  Statements only; proofs are in Proofs/DisplayProofs.v. *)
 From Coq Require Import List NArith Bool Sorted.
+From V Require Import Spec.TwoLevelCost Checkers.Check Proofs.CheckSoundCube.   (* the extracted checkers and their soundness proofs, pinned at the end of this file *)
 From V Require Import Base.Res Model.Kernels Model.TwoLevel Spec.Grammar Proofs.DisplayProofs.
 Import ListNotations.
 Open Scope N_scope.
@@ -109,3 +110,56 @@ Print Assumptions C16_esop_increasing.
 Print Assumptions C16_soes_increasing.
 Print Assumptions C16_cube_injective.
 Print Assumptions C16_ecube_injective.
+
+
+(* ---- soundness of the extracted checkers that decide this property's statement on the implementation's results *)
+Theorem C16_checker_text_iff : forall bytes f ms w,
+  chk_text bytes f ms w = true <-> exists ts, lex bytes = Some ts /\ text_ok ts f ms w.
+Proof. exact CheckSoundCube.chk_text_iff. Qed.
+
+Theorem C16_checker_text_false_iff : forall bytes f ms w,
+  chk_text bytes f ms w = false <->
+  lex bytes = None \/
+  exists ts, lex bytes = Some ts /\ ((exists m, In m ms /\ eval ts m <> Some (f m)) \/ ~ indices_ok ts w).
+Proof. exact CheckSoundCube.chk_text_false_iff. Qed.
+
+Theorem C16_checker_text_cube : forall c ms w,
+  CubeProofs.c32 c -> chk_text (cube_display c) (spec_cube_value c) ms w = true.
+Proof. exact CheckSoundCube.chk_text_cube. Qed.
+
+Theorem C16_checker_text_ecube : forall e ms w,
+  evars e < 2 ^ 32 -> chk_text (ecube_display e) (spec_ecube_value e) ms w = true.
+Proof. exact CheckSoundCube.chk_text_ecube. Qed.
+
+Theorem C16_checker_text_sop : forall s ms,
+  Forall CubeProofs.c32 (scubes s) ->
+  chk_text (sop_display s) (spec_sop_value (scubes s)) ms false = true.
+Proof. exact CheckSoundCube.chk_text_sop. Qed.
+
+Theorem C16_checker_text_esop : forall s ms,
+  Forall CubeProofs.c32 (ecubes s) ->
+  chk_text (esop_display s) (spec_esop_value (ecubes s)) ms false = true.
+Proof. exact CheckSoundCube.chk_text_esop. Qed.
+
+Theorem C16_checker_text_soes : forall s ms,
+  Forall (fun e => evars e < 2 ^ 32) (ocubes s) ->
+  chk_text (soes_display s) (spec_soes_value (ocubes s)) ms false = true.
+Proof. exact CheckSoundCube.chk_text_soes. Qed.
+
+Theorem C16_checker_soes_or_iff : forall n a b r,
+  chk_soes_or n a b r = true <-> forall m, m < 2 ^ N.of_nat n -> sem_soes r m = sem_soes a m || sem_soes b m.
+Proof. exact CheckSoundCube.chk_soes_or_iff. Qed.
+
+Theorem C16_checker_soes_or_model : forall n a b r,
+  soes_or a b = Ok r -> chk_soes_or n (ocubes a) (ocubes b) (ocubes r) = true.
+Proof. exact CheckSoundCube.chk_soes_or_model. Qed.
+
+Print Assumptions C16_checker_text_iff.
+Print Assumptions C16_checker_text_false_iff.
+Print Assumptions C16_checker_text_cube.
+Print Assumptions C16_checker_text_ecube.
+Print Assumptions C16_checker_text_sop.
+Print Assumptions C16_checker_text_esop.
+Print Assumptions C16_checker_text_soes.
+Print Assumptions C16_checker_soes_or_iff.
+Print Assumptions C16_checker_soes_or_model.
